@@ -63,7 +63,8 @@ func (g *semGen) name(prefix string) string {
 }
 
 var semFieldNames = []string{"a", "b", "value", "id", "name", "items", "any", "import", "message", "options", "struct",
-	"service", "subservice", "type", "func", "range", "len", "string", "bytes", "int32", "data", "x1", "y_2", "fooBar"}
+	"service", "subservice", "type", "func", "range", "len", "string", "bytes", "int32", "data", "x1", "y_2", "fooBar",
+	"_pre", "post_", "two__under", "CAPS"}
 
 func (g *semGen) fieldNames(n int) []string {
 	perm := make([]string, len(semFieldNames))
@@ -278,7 +279,7 @@ func GenSemantic(r *hx.Rand, module string) *Bundle {
 				f.Defs = append(f.Defs, sub)
 				local = append(local, genDef{id, "subservice", sub.Name})
 				svc := Def{Kind: "service", Name: g.name("Svc")}
-				names := []string{"call", "stream", "notify", "open", "message", "import", "getSub", "list"}
+				names := []string{"call", "stream", "notify", "open", "message", "import", "getSub", "list", "get_value"}
 				for mi, mn := range names[:1+r.Intn(len(names))] {
 					var subp *genDef
 					if mi%3 == 2 {
